@@ -93,6 +93,15 @@ package diff
 //@   loop 3 invariant [C09.pairing] [C19.pairing] n1 == len(matched)
 //@   loop 9 invariant [C09.pairing] [C19.pairing] forall q in 0..len(candidates) :: candidates[q].sim >= threshold
 //@   loop 10 invariant [C09.pairing] [C19.pairing] forall q in 0..len(candidates) :: candidates[q].sim >= threshold
+// the similarity stored with a candidate (compared with the threshold, sorted on, reported) is the value
+// TopologySimilarity returned for that pair, not a derived number. lastSim / gsim (ghost): the last value returned
+// to this function; the value recorded when candidate q was appended.
+//@   ghost lastSim float64
+//@   ghost gsim map[int]float64
+//@   call topology.TopologySimilarity update lastSim = result
+//@   loop 10 update gsim = ite(len(candidates) > prev(len(candidates)), store(prev(gsim), prev(len(candidates)), lastSim), prev(gsim))
+//@   loop 9 invariant [C19.simvalue] forall q in 0..len(candidates) :: candidates[q].sim == gsim[q]
+//@   loop 10 invariant [C19.simvalue] forall q in 0..len(candidates) :: candidates[q].sim == gsim[q]
 //@   loop 11 update gOld = ite(len(matched) > prev(len(matched)), store(prev(gOld), prev(len(matched)), c.oldIdx), prev(gOld))
 //@   loop 11 update gNew = ite(len(matched) > prev(len(matched)), store(prev(gNew), prev(len(matched)), c.newIdx), prev(gNew))
 //@   loop 11 update oOld = ite(len(matched) > prev(len(matched)), store(prev(oOld), c.oldIdx, prev(len(matched))), prev(oOld))
@@ -198,3 +207,20 @@ package diff
 // every function member of a package visited so far has been handed to processFunctionAndAnons (which marks it)
 //@   loop 2 invariant [C16.enum] forall m in #visited :: hasType(ssaPkg.Members[m], "*ssa.Function") ==> visited[dyn(ssaPkg.Members[m], "*ssa.Function")]
 //@   loop 3 invariant [C16.enum] forall m in #visited :: hasType(ssaPkg.Members[m], "*ssa.Function") ==> visited[dyn(ssaPkg.Members[m], "*ssa.Function")]
+
+// ---- C04: operands are compared slot by slot. go/ssa encodes optional operands by position (the nil slots of a
+// Slice, a MakeSlice, ...), so the two operand lists are compared as Operands(nil) returned them - same length, same
+// positions - never after filtering or reordering. rawPrev* / rawLast* (ghost): the lists returned by the first and
+// the second call of Operands.
+//@ func (*Zipper).compareOperands
+//@   noframe
+//@   ghost rawPrevRef int
+//@   ghost rawPrevLen int
+//@   ghost rawLastRef int
+//@   ghost rawLastLen int
+//@   call Operands update rawPrevRef = rawLastRef
+//@   call Operands update rawPrevLen = rawLastLen
+//@   call Operands update rawLastRef = sref(result)
+//@   call Operands update rawLastLen = len(result)
+//@   return-ensures [C04.operands] sref(opsA) == rawPrevRef && len(opsA) == rawPrevLen && sref(opsB) == rawLastRef && len(opsB) == rawLastLen
+//@   return-ensures [C04.operands] result ==> len(opsA) == len(opsB)
